@@ -6,6 +6,7 @@ PROP = {
         "Verif.Properties.C43.json_erasure_absorbs_ccf_erasure",
         "Verif.Properties.C43.ccf_erasure_keeps_type_ids",
         "Verif.Properties.C43.agree_partial",
+        "Verif.Properties.C43.agree_json_side",
     ],
     "gen": [["vtool", "gen-ccftags"]],
     "tool_files": ["tool_ccftags.go"],
